@@ -109,6 +109,21 @@ static int setPosition(char *val, MPT_INTERFACE(convertable) *src, int def)
 	}
 	return 0;
 }
+/* replace content by a copy of the template; the target is kept when a string can not be duplicated */
+static int assignAxis(MPT_STRUCT(axis) *to, const MPT_STRUCT(axis) *from)
+{
+	MPT_STRUCT(axis) tmp;
+	
+	mpt_axis_init(&tmp, from);
+	if (from && ((from->_title && !tmp._title))) {
+		mpt_axis_fini(&tmp);
+		return MPT_ERROR(BadOperation);
+	}
+	mpt_axis_fini(to);
+	*to = tmp;
+	return 0;
+}
+
 /*!
  * \ingroup mptPlot
  * \brief set axis properties
@@ -137,8 +152,9 @@ extern int mpt_axis_set(MPT_STRUCT(axis) *ax, const char *name, MPT_INTERFACE(co
 			if (len && from == ax) {
 				return 0;
 			}
-			mpt_axis_fini(ax);
-			mpt_axis_init(ax, len ? from : 0);
+			if ((type = assignAxis(ax, len ? from : 0)) < 0) {
+				return type;
+			}
 			return 0;
 		}
 		if ((len = mpt_string_pset(&ax->_title, src)) >= 0) {
@@ -161,8 +177,9 @@ extern int mpt_axis_set(MPT_STRUCT(axis) *ax, const char *name, MPT_INTERFACE(co
 			if (len && from == ax) {
 				return 0;
 			}
-			mpt_axis_fini(ax);
-			mpt_axis_init(ax, len ? from : 0);
+			if ((type = assignAxis(ax, len ? from : 0)) < 0) {
+				return type;
+			}
 			return 0;
 		}
 		return MPT_ERROR(BadType);
